@@ -758,6 +758,36 @@ pub fn cli(args: &[String]) -> bool {
                     // the implementation's own tokens are also offered to the model's deserializer (and vice versa in -run)
                     if let Ok(t) = ser17(v, human) {
                         writeln!(f, "de {m} {} | {}", type_of(v), t.iter().map(show).collect::<Vec<_>>().join(" ")).unwrap();
+                        // the malformed stream: the same tokens cut short, with one token replaced / dropped / doubled,
+                        // offered to the other mode, or with a token of another kind in front
+                        let junk = [Tok::Unit, Tok::None, Tok::Bool(true), Tok::U8(200), Tok::U64(u64::MAX), Tok::I64(-1), Tok::F64(0x7ff8000000000001), Tok::Str(b"Default".to_vec()), Tok::Str(vec![0xff]),
+                                    Tok::Bytes(vec![0; 16]), Tok::Bytes(vec![1; 15]), Tok::Seq(None), Tok::SeqEnd, Tok::Map(Some(1)), Tok::Field("density".into()), Tok::Str(b"Top".to_vec()), Tok::Str(b"X".to_vec()),
+                                    Tok::U128(u128::MAX), Tok::U16(4), Tok::NewtypeVariant("TaggedPhysicalProperties".into(), 1, "Custom".into()), Tok::UnitVariant("E".into(), 0, "Default".into())];
+                        for _ in 0..3 {
+                            let mut u = t.clone();
+                            match rng.below(6) {
+                                0 if !u.is_empty() => {
+                                    u.truncate(rng.below(u.len() as u64) as usize);
+                                }
+                                1 if !u.is_empty() => {
+                                    let i = rng.below(u.len() as u64) as usize;
+                                    u[i] = junk[rng.below(junk.len() as u64) as usize].clone();
+                                }
+                                2 if !u.is_empty() => {
+                                    let i = rng.below(u.len() as u64) as usize;
+                                    u.remove(i);
+                                }
+                                3 if !u.is_empty() => {
+                                    let i = rng.below(u.len() as u64) as usize;
+                                    let x = u[i].clone();
+                                    u.insert(i, x);
+                                }
+                                4 => u.insert(0, junk[rng.below(junk.len() as u64) as usize].clone()),
+                                _ => u.push(junk[rng.below(junk.len() as u64) as usize].clone()),
+                            }
+                            let other = if rng.chance(25) { if human { "C" } else { "H" } } else { m };
+                            writeln!(f, "de {other} {} | {}", type_of(v), u.iter().map(show).collect::<Vec<_>>().join(" ")).unwrap();
+                        }
                     }
                     writeln!(f, "end").unwrap();
                 }
